@@ -196,6 +196,10 @@ def _explore(out, tier, seed, facts, replay, tmp):
         for ty in TYPES:
             for ax in AXES:
                 jobs.add((s, rng.choice(names), ax, ty, ()))
+    # the dispatch tie: every (name, output type) once on the full dataset with the default axis
+    for n in names:
+        for ty in TYPES:
+            jobs.add(("full", n, None, ty, ()))
     # conditional axes (-x obs / -x fcst) with every aggregator variant, for the metrics that take fields
     for n in ("obs", "fcst", "pit", "mae"):
         for ax in ("obs", "fcst", "threshold"):
@@ -211,6 +215,7 @@ def _explore(out, tier, seed, facts, replay, tmp):
     counts = {"ok": 0, "exit": 0, "exception": 0, "silent-exit": 0}
     by_type = {t: 0 for t in TYPES}
     observed = {}
+    dispatched = {}
     exceptions = {}
     with Pool(min(15, os.cpu_count() or 4), initializer=_init, initargs=(common.REPO, tmp)) as pool:
         for job, st, info, dropped in pool.imap_unordered(work, jobs, chunksize=16):
@@ -218,6 +223,8 @@ def _explore(out, tier, seed, facts, replay, tmp):
             by_type[job[3]] += 1
             if job[2] is not None and st in ("ok", "exit") and job[4] == () and job[0] == "full":
                 observed.setdefault((job[1], job[2]), set()).add(dropped)
+            if job[2] is None and job[4] == () and job[0] == "full" and st in ("ok", "exit"):
+                dispatched[(job[1], job[3])] = (st, info)
             if st in ("exception", "silent-exit"):
                 key = info.split(":")[0] + ":" + info.split(":")[1] if st == "exception" else "silent-exit:" + job[1]
                 exceptions.setdefault(key, []).append((job, info))
@@ -255,7 +262,35 @@ def _explore(out, tier, seed, facts, replay, tmp):
             out.broken_obligation("tie:Gen_caps.gate", "%d of %d (name, axis) pairs: the translated gate and the driver's warnings disagree; first %r" % (len(bad), len(pairs), bad[:3]))
     except RuntimeError as ex:
         out.broken_obligation("tie:Gen_caps", str(ex)[-1500:])
+    # ---- the dispatch of -type: a type whose core method the class does not define must end in the explanatory exit ----
+    dpairs = sorted(dispatched)
+    dagree = 0
+    UNSUPPORTED_MSG = ("does not provide text output", "This type does not plot", "This type does not support")
+    try:
+        dexprs = []
+        for k in range(0, len(dpairs), 200):
+            dexprs.append("map (fun p => DataQ.f_of_nat (type_supported (fst p) (snd p))) [%s]" % "; ".join('("%s", "%s")' % p_ for p_ in dpairs[k:k + 200]))
+        dgot = common.coq_eval_float_lists("From Coq Require Import String.\nFrom VF Require Import Model.DataQ Gen.Gen_caps Model.Gate.\nOpen Scope string_scope.",
+                                           dexprs, "c19d_%d" % seed, chunk=4, float_scope=False) if dexprs else []
+        dflat = [v for g in dgot for v in g]
+        dbad = []
+        for (n, ty), v in zip(dpairs, dflat):
+            st, info = dispatched[(n, ty)]
+            refused = st == "exit" and any(m in info for m in UNSUPPORTED_MSG)
+            if v == 0.0 and st != "exit":
+                dbad.append((n, ty, "the class does not define the method for this type, yet the run produced output"))
+            elif v == 1.0 and refused:
+                dbad.append((n, ty, "the class defines the method for this type, yet the run was refused: %s" % info[-80:]))
+            elif v == 2.0:
+                dbad.append((n, ty, "name not resolved by the model"))
+            else:
+                dagree += 1
+        if dbad:
+            out.broken_obligation("tie:Gen_caps.dispatch", "%d of %d (name, type) pairs: the translated dispatch tables and the driver disagree; first %r" % (len(dbad), len(dpairs), dbad[:3]))
+    except RuntimeError as ex:
+        out.broken_obligation("tie:Gen_caps.dispatch", str(ex)[-1500:])
     return {
+        "dispatch_pairs_compared": len(dpairs), "dispatch_pairs_agreeing": dagree,
         "evaluations": len(jobs),
         "distinct_nontrivial": counts["ok"] + counts["exit"],
         "rule": "each evaluation is one verif.driver.run(argv) on two generated text files; shapes %s; names = %d metric and output class names; "
